@@ -1476,8 +1476,10 @@ def run_patterns(sh, w, r, table, total, eq, fixed=False):
                 continue
             batch.append(c)
         done += len(batch)
+        # (wide and deeply nested patterns use more names than the fixed list holds: observe every name of the batch)
+        names = sorted(set(obs_names) | {n_ for c in batch for n_ in c["names"]}, key=lambda n_: int(n_[1:]))
         evs = core.eval_all(w, [c["text"] for c in batch], prelude=PRELUDE, fresh_each=True, child_each=True,
-                            fuel=300000, observe=obs_names, jid="c12a")
+                            fuel=300000, observe=names, jid="c12a")
         for c, ev in zip(batch, evs):
             judge_pattern(sh, c, ev, eq)
 
